@@ -758,6 +758,19 @@ func getLatestRefTipsFromRSLEntries(entries []rsl.Entry) map[string]githash.Hash
 			if _, has := refTips[entry.GetRefName()]; has {
 				continue
 			}
+
+			skipped := false
+			for _, annotation := range annotationsMap[entry.GetID().String()] {
+				if annotation.Skip {
+					skipped = true
+					break
+				}
+			}
+			if skipped {
+				continue
+			}
+
+			refTips[entry.GetRefName()] = entry.GetTargetID()
 		case *rsl.AnnotationEntry:
 			for _, referencedEntryID := range entry.RSLEntryIDs {
 				if _, has := annotationsMap[referencedEntryID.String()]; !has {
